@@ -113,8 +113,18 @@ void h_elem_nomatch(void)
 void h_elem_match(void)
 {
 	g_tape_n = 0;
-	mk_array(0);
+	static struct data_elem four[4];
+
+	for (unsigned int k = 0; k < 4; k++) {
+		four[k].asn = VND_U32();
+		four[k].max_len = VND_U8();
+		four[k].socket = NULL;
+	}
+	g_nd.len = VND_U8();
 	ASSUME(g_nd.len <= 4);
+	g_nd.ary = four;
+	g_r.asn = VND_U32();
+	g_r.min_len = VND_U8();
 	bool any = false;
 
 	for (unsigned int k = 0; k < 4; k++)
